@@ -286,7 +286,19 @@ def main(chk):
         check_run(chk, r)
     collectors(chk, rng, 6 if q else 100)
     import tabruns
-    for r in lc.tab_collect(chk, rng, 2 if q else 20):
+    tab_recs = lc.tab_collect(chk, rng, 2 if q else 20)
+    # the action-source model (Loop.v, act_flags): with the routines' rule - ask the policy at the top of every iteration - every
+    # executed action is computed from the current observation (theorem C01_tabular_action_from_current_observation)
+    ok_recs = [r for r in tab_recs if not r["res"]["raised"]]
+    flags = chk.model_eval([f"(sl sb (M.act_flags M.ActFresh {lc.script_ml(r['case']['script'])} {lc.nlit(len([e for e in r['res']['log'] if e[0] == 'step']))}))"
+                            for r in ok_recs], per_file=40)
+    for r, mf in zip(ok_recs, flags):
+        impl_f = tabruns.conditioned_flags(r["res"])
+        if impl_f != mf and all(mf):
+            chk.count("tabular_action_source_mismatches")      # reported concretely by check_conditioned below
+        elif impl_f != mf:
+            chk.disagree("tabular-action-source", {"case": r["case"], "impl": impl_f, "model": mf})
+    for r in tab_recs:
         bad = None if r["res"]["raised"] else tabruns.check_kept(r["res"])
         if bad:
             chk.fail(f"C01:train_{r['name']}:kept-transition", "tabular routine: " + bad[0], {"case": r["case"], **bad[1]})
